@@ -9,6 +9,7 @@ pub mod hostile;
 pub mod iofault;
 pub mod prog;
 pub mod pyx;
+pub mod rawhuge;
 
 use crate::runner::Scenario;
 use prog::{Mode, Roundtrip};
@@ -28,6 +29,7 @@ pub static FOREIGN: foreign::Foreign = foreign::Foreign { z64: false };
 pub static FOREIGN_Z64: foreign::Foreign = foreign::Foreign { z64: true };
 pub static STREAM: stream::Stream = stream::Stream;
 pub static STREAM_HUGE: stream::StreamHuge = stream::StreamHuge;
+pub static RAWCOPY_HUGE: rawhuge::RawHuge = rawhuge::RawHuge;
 pub static EXTRACT: extract::Extract = extract::Extract;
 pub static CLONES: clones::Clones = clones::Clones;
 pub static CLONES_SHUTTLE: clones::ClonesShuttle = clones::ClonesShuttle;
@@ -38,7 +40,7 @@ pub static AES: crypt::AesSc = crypt::AesSc;
 pub static ZIPCRYPTO: crypt::ZipCryptoSc = crypt::ZipCryptoSc;
 
 pub fn all() -> Vec<&'static dyn Scenario> {
-    vec![&ROUNDTRIP, &ROUNDTRIP_FULL, &STATEMACHINE, &APPEND, &RAWCOPY, &ALIGN, &ZIP64, &CHUNKING, &IOFAULT, &HOSTILE, &HOSTILE_CRC, &BITROT, &AES, &ZIPCRYPTO, &FOREIGN, &FOREIGN_Z64, &STREAM, &STREAM_HUGE, &EXTRACT, &CLONES, &CLONES_SHUTTLE, &PYJUDGE, &PYPRODUCER]
+    vec![&ROUNDTRIP, &ROUNDTRIP_FULL, &STATEMACHINE, &APPEND, &RAWCOPY, &ALIGN, &ZIP64, &CHUNKING, &IOFAULT, &HOSTILE, &HOSTILE_CRC, &BITROT, &AES, &ZIPCRYPTO, &FOREIGN, &FOREIGN_Z64, &STREAM, &STREAM_HUGE, &RAWCOPY_HUGE, &EXTRACT, &CLONES, &CLONES_SHUTTLE, &PYJUDGE, &PYPRODUCER]
 }
 
 pub fn lookup(name: &str) -> Option<&'static dyn Scenario> {
@@ -58,18 +60,18 @@ const A_CODEC: &str = "codec and crypto primitive crates are trusted (shared wit
 pub fn props() -> Vec<PropCfg> {
     vec![
         PropCfg { id: "C01", level: "exploration", scenarios: vec![&ROUNDTRIP], assumptions: vec![A_MODEL, A_CODEC] },
-        PropCfg { id: "C02", level: "exploration", scenarios: vec![&ROUNDTRIP_FULL, &ZIP64, &PYJUDGE], assumptions: vec!["independent parser written from APPNOTE is the judge", A_CODEC, "literal 0xFFFF/0xFFFFFFFF without ZIP64 accepted"] },
+        PropCfg { id: "C02", level: "exploration", scenarios: vec![&ROUNDTRIP_FULL, &ZIP64, &RAWCOPY_HUGE, &PYJUDGE], assumptions: vec!["independent parser written from APPNOTE is the judge", A_CODEC, "literal 0xFFFF/0xFFFFFFFF without ZIP64 accepted"] },
         PropCfg { id: "C03", level: "exploration", scenarios: vec![&FOREIGN, &PYPRODUCER], assumptions: vec![A_CODEC, "the independent builder's own record of what it wrote is the oracle; CP437 decoding uses the harness's own table", "format-ambiguous layouts (signature bytes at the probe positions) are skipped and counted (R2)"] },
         PropCfg { id: "C04", level: "fault_enumeration", scenarios: vec![&BITROT, &HOSTILE_CRC], assumptions: vec![A_CODEC, "own CRC-32 implementation recomputes the checksum of the returned bytes", "AE-2 entries are exempt (covered by C16)"] },
         PropCfg { id: "C05", level: "exploration", scenarios: vec![&HOSTILE], assumptions: vec!["heap bound while opening: 1024 x input length + 8 MiB, measured by a counting global allocator (R9)", "step budget 4M + 16 x length I/O calls per handle; a wall-clock watchdog covers loops that perform no I/O", "harness built with overflow-checks and debug-assertions on"] },
         PropCfg { id: "C07", level: "exploration", scenarios: vec![&EXTRACT], assumptions: vec!["the sink is the real kernel file system, confined to a fresh sandbox under /verif/target/sandbox whose whole tree outside the target is snapshotted (path, type, size, mode, mtime, content hash) before and after", "generated '..' chains are at most 14 long and absolute names point into the sandbox's canary directory, so even a real escape cannot leave the sandbox", "host path semantics are Unix", A_CODEC] },
-        PropCfg { id: "C08", level: "exploration", scenarios: vec![&ZIP64, &FOREIGN_Z64], assumptions: vec![A_MODEL, A_CODEC, "sizes and offsets beyond 2^32 are realised on a sparse simulated disk (zero pages are not stored); huge payloads are zeros with marker bytes every 64 MiB and at the end"] },
+        PropCfg { id: "C08", level: "exploration", scenarios: vec![&ZIP64, &FOREIGN_Z64, &RAWCOPY_HUGE], assumptions: vec![A_MODEL, A_CODEC, "sizes and offsets beyond 2^32 are realised on a sparse simulated disk (zero pages are not stored); huge payloads are zeros with marker bytes every 64 MiB and at the end"] },
         PropCfg { id: "C09", level: "exploration", scenarios: vec![&CHUNKING], assumptions: vec![A_CODEC, "the unfragmented (Pure policy) execution is the reference outcome"] },
         PropCfg { id: "C10", level: "exploration", scenarios: vec![&STREAM, &STREAM_HUGE], assumptions: vec![A_CODEC, "the seekable reader on the same bytes is the reference (its fidelity is C01/C03's job)", "entries on the 32-bit size limit, archives starting around 4 GiB and more than 65535 entries are realised on the sparse simulated disk (stream_huge)"] },
         PropCfg { id: "C11", level: "fault_enumeration", scenarios: vec![&IOFAULT], assumptions: vec![A_CODEC, "'identical to the failure-free run' is judged on entries/metadata/contents/comment, not on bytes (R7)", "programs end with an explicit finish(), so that no error is swallowed by Drop"] },
         PropCfg { id: "C12", level: "exploration", scenarios: vec![&STATEMACHINE], assumptions: vec![A_MODEL, A_CODEC, "after a failed state-changing call the model only constrains what the property states (R6)"] },
         PropCfg { id: "C13", level: "exploration", scenarios: vec![&APPEND, &PYPRODUCER], assumptions: vec![A_MODEL, A_CODEC, "the crate's own reading of a foreign base archive is the reference for 'unchanged' (reader fidelity is C03's job)"] },
-        PropCfg { id: "C14", level: "exploration", scenarios: vec![&RAWCOPY], assumptions: vec![A_MODEL, A_CODEC, "source entries are described by the independent parser"] },
+        PropCfg { id: "C14", level: "exploration", scenarios: vec![&RAWCOPY, &RAWCOPY_HUGE], assumptions: vec![A_MODEL, A_CODEC, "source entries are described by the independent parser", "ZIP64-sized sources (rawcopy_huge) are laid down by hand on the sparse disk; their payload is a hole with marker bytes, which a raw copy never decodes"] },
         PropCfg { id: "C15", level: "exploration", scenarios: vec![&ZIPCRYPTO, &PYJUDGE], assumptions: vec![A_CODEC, "independent PKWARE cipher written from the APPNOTE pseudo-code with its own CRC table", "a wrong password passing the 1-byte check is legal (R5): it must then fail by EOF or return the original bytes"] },
         PropCfg { id: "C16", level: "fault_enumeration", scenarios: vec![&AES], assumptions: vec![A_CODEC, "independent WinZip-AES composition (PBKDF2-HMAC-SHA1, AES-CTR little-endian counter, HMAC-SHA1-80) validated at start-up against the third-party fixture in /repo/tests/data", "empty entries carry no tamper obligation (the property says non-empty)"] },
         PropCfg { id: "C17", level: "exploration", scenarios: vec![&ALIGN], assumptions: vec![A_MODEL, A_CODEC] },
